@@ -241,6 +241,38 @@ def run_verus_unit(unit, repo, want_canary=True):
     res["generated_file"] = path
     info = run_verus_file(path, rlimit=unit.get("rlimit"))
     status, funcs, fails, smt_ms, nver = classify_verus(info)
+    # A refactoring may introduce a named constant next to the function; its value is definitional, so
+    # it is pulled in verbatim from the same source file and the unit is re-run (helper *functions* are not:
+    # without a contract of their own nothing could be concluded from them).
+    auto = []
+    for _round in range(4):
+        if status != "undecided":
+            break
+        m = re.search(r"cannot find value `(\w+)` in this scope", info["stderr"])
+        if not m or m.group(1) in auto:
+            break
+        name = m.group(1)
+        ctext = None
+        for fmeta in meta.get("functions", []):
+            if fmeta["src"] == "expanded":
+                continue
+            try:
+                from rustscan import Source
+                src = Source(open(os.path.join(repo, fmeta["src"])).read(), fmeta["src"])
+                a, b = src.find_const(src.whole(), name)
+                ctext = src.text[a:b]
+                break
+            except (AnchorLost, OSError):
+                continue
+        if ctext is None:
+            break
+        auto.append(name)
+        text = text.replace("\nfn main() {}", "\nverus! { pub %s }\nfn main() {}" % ctext.replace("pub ", "", 1), 1)
+        open(path, "w").write(text)
+        info = run_verus_file(path, rlimit=unit.get("rlimit"))
+        status, funcs, fails, smt_ms, nver = classify_verus(info)
+    if auto:
+        res["auto_included_consts"] = auto
     res["status"] = status
     res["obligations"] = [f for f in funcs]
     res["verified_items"] = nver
@@ -300,6 +332,22 @@ KANI_FILES = {
 }
 
 
+def write_kf_files(findings):
+    """Per-obligation blocked-input expressions from known_findings.txt (never edited at run time)."""
+    d = os.path.join(BUILD, "kf")
+    os.makedirs(d, exist_ok=True)
+    by = {}
+    for f in findings:
+        if f.get("block"):
+            by.setdefault(f["obligation"], []).append("(" + f["block"] + ")")
+    reg = load_registry()
+    for u in reg.get("unit", []):
+        if u["kind"].startswith("kani") and u.get("kf_file"):
+            with open(os.path.join(d, u["kf_file"]), "w") as fh:
+                fh.write("fn kf_blocked(%s) -> bool { %s }\n" % (u.get("kf_params", "n: u8"), " || ".join(["false"] + by.get(u["id"], []))))
+    return d
+
+
 def kani_scratch(repo, features_off=False):
     d = scratch_copy(repo, "kani" + ("_nf" if features_off else ""))
     for key, rel in KANI_FILES.items():
@@ -356,7 +404,7 @@ def run_kani_harness(unit, scratch, features_off=False, playback=False):
     cmd += unit.get("kani_flags", [])
     if playback:
         cmd += ["-Z", "concrete-playback", "--concrete-playback=print"]
-    rc, so, se, dt = sh(cmd, cwd=scratch, timeout=unit.get("timeout", 900))
+    rc, so, se, dt = sh(cmd, cwd=scratch, timeout=unit.get("timeout", 900), env={"VERIF_KF_DIR": os.path.join(BUILD, "kf")})
     out = so + "\n" + se
     res["wall_s"] = round(dt, 2)
     info = parse_kani_output(out)
@@ -393,6 +441,84 @@ def run_kani_harness(unit, scratch, features_off=False, playback=False):
             res["concrete_test"] = extract_concrete_test(out)
     res["wall_s"] = round(time.time() - t0, 2)
     return res
+
+
+def run_kani_batch(units, scratch, features_off=False, jobs=8, timeout=2400):
+    """One `cargo kani` invocation for many harnesses (the crate is compiled once; harnesses are
+    verified in parallel with --output-format=terse).  Returns one result per unit."""
+    t0 = time.time()
+    cmd = ["cargo", "kani", "--target-dir", os.path.join(BUILD, "kani_target" + ("_nf" if features_off else "")),
+           "-Z", "function-contracts", "-Z", "stubbing", "--exact", "-j", str(jobs), "--output-format=terse"]
+    if features_off:
+        cmd += ["--no-default-features"]
+    for u in units:
+        cmd += ["--harness", u["harness"]]
+    rc, so, se, dt = sh(cmd, cwd=scratch, timeout=timeout, env={"VERIF_KF_DIR": os.path.join(BUILD, "kf")})
+    out = so + "\n" + se
+    # parse per-thread sections
+    cur = {}
+    per = {}
+    lines = out.split("\n")
+    k = 0
+    while k < len(lines):
+        ln = lines[k]
+        m = re.match(r"Thread (\d+): Checking harness (\S+?)\.\.\.", ln)
+        if m:
+            cur[m.group(1)] = m.group(2)
+            per.setdefault(m.group(2), {"failed": [], "verdict": None, "time": None})
+        m2 = re.match(r"Thread (\d+):\s*$", ln)
+        if m2 and m2.group(1) in cur:
+            h = cur[m2.group(1)]
+            j = k + 1
+            while j < len(lines) and not lines[j].startswith("Thread ") and not lines[j].startswith("Manual Harness Summary"):
+                l2 = lines[j]
+                mm = re.match(r"Failed Checks: (.*)", l2)
+                if mm:
+                    per[h]["failed"].append(mm.group(1).strip())
+                mm = re.match(r"VERIFICATION:- (SUCCESSFUL|FAILED)", l2)
+                if mm:
+                    per[h]["verdict"] = mm.group(1)
+                mm = re.match(r"Verification Time: ([0-9.]+)s", l2)
+                if mm:
+                    per[h]["time"] = float(mm.group(1))
+                j += 1
+            k = j - 1
+        k += 1
+    compile_err = None
+    if not per and re.search(r"^error(\[E\d+\])?[: ]", out, re.M):
+        compile_err = "\n".join(re.findall(r"^error.*(?:\n\s+-->.*)?", out, re.M)[:8])
+    results = []
+    led = load_ledger().get("discharged", {})
+    for u in units:
+        res = {"id": u["id"], "kind": "kani", "functions": u.get("functions", []),
+               "backend": "kani 0.68 / cbmc 6.11", "bounded": bool(u.get("bounded")), "bound": u.get("bound", ""),
+               "wall_s": round(time.time() - t0, 2)}
+        info = per.get(u["harness"])
+        linfo = led.get(u["id"], {})
+        res["checks"] = linfo.get("checks")
+        res["covers"] = linfo.get("covers")
+        res["checks_note"] = "CBMC check and cover counts are those recorded when the ledger was written (terse batch output does not print them)"
+        if compile_err:
+            res.update(status="undecided", reason="compile error in harness build: " + compile_err[:1500])
+        elif rc == 124 and (not info or not info["verdict"]):
+            res.update(status="undecided", reason="batch timeout after %ss before this harness finished" % timeout)
+        elif not info or not info["verdict"]:
+            res.update(status="undecided", reason="no verdict from kani for this harness: " + out[-800:])
+        elif info["verdict"] == "SUCCESSFUL":
+            res["status"] = "ok"
+            res["solver_s"] = info["time"]
+        else:
+            real = [f for f in info["failed"] if "unwinding assertion" not in f]
+            res["solver_s"] = info["time"]
+            if not real and info["failed"]:
+                res.update(status="undecided", reason="unwinding assertion failed (bound too small)")
+            elif not real:
+                res.update(status="undecided", reason="FAILED without a failed check listed")
+            else:
+                res["status"] = "logical"
+                res["failures"] = [{"kind": "kani check", "text": f, "function": u["harness"].split("::")[-1]} for f in real]
+        results.append(res)
+    return results
 
 
 # --------------------------------------------------------------------------------------
@@ -454,6 +580,7 @@ def main():
         return 2
 
     results = []
+    write_kf_files(findings)
     verus_units = [u for u in units if u["kind"] in ("verus",)]
     kani_units = [u for u in units if u["kind"] == "kani"]
     kani_nf_units = [u for u in units if u["kind"] == "kani_nofeat"]
@@ -479,25 +606,35 @@ def main():
         # kani
         scratch = scratch_nf = None
         try:
+            kani_futs = []
             if kani_units:
                 scratch = kani_scratch(repo)
-                # warm build first (serial) so parallel harness runs reuse artefacts
-                k0 = run_kani_harness(kani_units[0], scratch)
-                results.append(k0)
-                kf = [ex.submit(run_kani_harness, u, scratch) for u in kani_units[1:]]
-                futs += kf
+                if args.update_ledger:
+                    # full-format individual runs: records CBMC check counts and cover results in the ledger
+                    k0 = run_kani_harness(kani_units[0], scratch)
+                    results.append(k0)
+                    futs += [ex.submit(run_kani_harness, u, scratch) for u in kani_units[1:]]
+                else:
+                    kani_futs.append(ex.submit(run_kani_batch, kani_units, scratch, False, args.jobs // 2))
             if kani_nf_units:
                 scratch_nf = kani_scratch(repo, features_off=True)
-                k0 = run_kani_harness(kani_nf_units[0], scratch_nf, features_off=True)
-                results.append(k0)
-                futs += [ex.submit(run_kani_harness, u, scratch_nf, True) for u in kani_nf_units[1:]]
+                if args.update_ledger:
+                    k0 = run_kani_harness(kani_nf_units[0], scratch_nf, features_off=True)
+                    results.append(k0)
+                    futs += [ex.submit(run_kani_harness, u, scratch_nf, True) for u in kani_nf_units[1:]]
+                else:
+                    kani_futs.append(ex.submit(run_kani_batch, kani_nf_units, scratch_nf, True, args.jobs // 2))
             for u in build_units:
                 futs.append(ex.submit(run_build_unit, u, repo))
             for f in futs:
                 results.append(f.result())
+            for f in kani_futs:
+                results += f.result()
             # counterexample replay for kani failures
             for r in results:
-                if r.get("kind") == "kani" and r.get("status") == "logical" and not r.get("concrete_test"):
+                if r.get("kind") == "kani" and r.get("status") == "logical" and not r.get("concrete_test") \
+                        and r["id"] in ledger.get("discharged", {}) \
+                        and not [f for f in findings if f.get("obligation") == r["id"] and not f.get("block")]:
                     u = [x for x in units if x["id"] == r["id"]][0]
                     sc = scratch_nf if u["kind"] == "kani_nofeat" else scratch
                     rr = run_kani_harness(u, sc, u["kind"] == "kani_nofeat", playback=True)
@@ -551,11 +688,10 @@ def finish(prop, tier, seed, units, results, ledger, findings, fixed, pmeta, arg
             (bounded_ok if is_bounded else proved).append(r)
             continue
         if st == "logical":
-            # known finding?
-            kf = [f for f in findings if f.get("obligation") == r["id"] and f.get("property") == prop]
-            if kf and u.get("known_ok"):
-                for f in kf:
-                    known_printed.append(f)
+            # a finding recorded for the whole obligation (no `block=`) suppresses exactly this obligation
+            kf = [f for f in findings if f.get("obligation") == r["id"] and not f.get("block")]
+            if kf:
+                r["known_finding"] = True
                 continue
             violations.append(r)
             continue
@@ -570,6 +706,8 @@ def finish(prop, tier, seed, units, results, ledger, findings, fixed, pmeta, arg
     if args.update_ledger:
         for r in proved + bounded_ok:
             led[r["id"]] = {"kind": r["kind"], "bounded": bool(r.get("bounded"))}
+            if r["kind"] == "kani":
+                led[r["id"]].update(checks=r.get("checks"), covers=list(r["covers"]) if r.get("covers") else None)
         json.dump(ledger, open(LEDGER, "w"), indent=1, sort_keys=True)
 
     # ---------------- replay artefacts
@@ -667,8 +805,11 @@ def finish(prop, tier, seed, units, results, ledger, findings, fixed, pmeta, arg
         log("bounded-ok  %-34s %s  [%s]" % (r["id"], r.get("backend", ""), r.get("bound", "")))
     for r in bounded_other:
         log("bounded-incomplete %-27s %s" % (r["id"], (r.get("reason") or r.get("status"))[:200]))
+    unit_ids = set(u["id"] for u in load_registry().get("unit", []) if prop in u.get("props", []))
+    known_printed = [f for f in findings if f.get("property") == prop or f.get("obligation") in unit_ids]
     for f in known_printed:
-        log("KNOWN-FINDING: property=%s obligation=%s %s" % (prop, f.get("obligation"), f.get("what", "")))
+        log("KNOWN-FINDING: property=%s obligation=%s %s%s" % (prop, f.get("obligation"),
+            ("input " + f["block"] + ": ") if f.get("block") else "", f.get("what", "")))
     for r in undecided:
         log("UNDECIDED   %-34s %s" % (r["id"], (r.get("reason") or "logical failure of an obligation not in the ledger")[:1500]))
     for ln in viol_lines:
